@@ -1,4 +1,11 @@
 import PPLV.Value.MoveProofsVecThms
+import PPLV.Value.MoveProofsRecycle
+import PPLV.Value.MoveProofsWorld
+import PPLV.Value.MoveProofsAlias
+import PPLV.Value.MoveProofsGrid
+import PPLV.Value.MoveProofsPset
+import PPLV.Value.MoveProofsCmp
+import PPLV.Value.MoveDemo
 
 /-!
 # C13 stage 2 — the MOVING mechanics of the library as a heap-with-ownership machine
@@ -64,5 +71,238 @@ theorem swapping_vector_erase_one_last (fuel : Nat) (h : Heap) (v : SVec) (i : N
   C13Proofs.swapping_vector_erase_one_last fuel h v i hi
 
 example : ((⟨[⟨0, 1, false⟩, ⟨1, 0, false⟩, ⟨2, 0, false⟩], 3⟩ : SVec).eraseOne 40 Heap.empty 0).isNone = true := by decide
+
+/-! ## recycling entry points
+
+Concrete instance used by the examples (`PPLV/Value/MoveDemo.lean`): a heap of 7 cells, a polyhedron
+`demoPoly` owning cells 0–3 (constraints up to date, not minimized), `demoPolyMin` (both descriptions
+minimized: rows are added as pending rows), an unsorted argument system `demoArg` with one pending row
+owning cells 4–6; `demo_owns : Owns demoHeap (demoPoly.owned ++ demoArg.owned ++ [])`. -/
+
+example : Owns demoHeap (demoPoly.owned ++ demoArg.owned ++ []) := demo_owns
+example : Owns demoHeap (demoCon.owned ++ demoArg.owned ++ demoGen.owned) := demo_owns_sys
+
+/-- **recycled insertion = copying insertion** (`Linear_System`): `x.insert(y, Recycle_Input())` and `x.insert(y)` (which copies `y` first, `Linear_System_templates.hh:323`) give the receiver the same value — rows in order, space dimension, pending index, sortedness flag — for every state of the two systems (pending rows, unsorted, different dimensions) -/
+theorem recycled_insert_eq_copy_insert (K : RowClass) (h : Heap) (x y : LinSys) (frame : List Nat)
+    (hO : Owns h (x.owned ++ y.owned ++ frame)) :
+    (x.insertSys K h y).2.1.value (x.insertSys K h y).1
+      = (x.insertConst K h (.other y)).2.value (x.insertConst K h (.other y)).1 :=
+  by apply C13Proofs.recycled_insert_eq_copy_insert <;> assumption
+example : (demoCon.insertSys constraintClass demoHeap demoArg).2.1.value (demoCon.insertSys constraintClass demoHeap demoArg).1
+    = ⟨[⟨[0, 1, 0], 0, false⟩, ⟨[1, 1, 1], 1, false⟩, ⟨[2, 0, 1], 1, false⟩, ⟨[5, -1, 0], 1, false⟩, ⟨[3, 1, 1], 1, false⟩], 2, false, 5, false⟩ := by
+  decide
+
+/-- the same for `insert_pending(y, Recycle_Input())` / `insert_pending(y)` -/
+theorem recycled_insert_pending_eq_copy_insert (K : RowClass) (h : Heap) (x y : LinSys) (frame : List Nat)
+    (hO : Owns h (x.owned ++ y.owned ++ frame)) :
+    (x.insertPendingSys K h y).2.1.value (x.insertPendingSys K h y).1
+      = (x.insertPendingConst K h (.other y)).2.value (x.insertPendingConst K h (.other y)).1 :=
+  by apply C13Proofs.recycled_insert_pending_eq_copy_insert <;> assumption
+/-- **`ph.add_recycled_constraints(cs)` = `ph.add_constraints(cs)`** as values of the receiver (and the same path is taken).  Not definitional: `add_constraints` recycles a copy made by the copy constructor, which turns pending rows into ordinary ones and drops `sorted` when there were any (`Linear_System_inlines.hh:121`), while the recycled call sees the original flags; the receivers still agree -/
+theorem recycled_constraints_eq_copy (h : Heap) (x : Poly) (cs : LinSys) (frame : List Nat)
+    (hO : Owns h (x.owned ++ cs.owned ++ frame)) :
+    (x.addRecycledConstraints h cs).2.1.value (x.addRecycledConstraints h cs).1
+      = (x.addConstraints h cs).2.1.value (x.addConstraints h cs).1
+    ∧ (x.addRecycledConstraints h cs).2.2.2 = (x.addConstraints h cs).2.2 :=
+  by apply C13Proofs.recycled_constraints_eq_copy <;> assumption
+example : (demoPoly.addRecycledConstraints demoHeap demoArg).2.2.2 = .moved
+    ∧ (demoPolyMin.addRecycledConstraints demoHeap demoArg).2.2.2 = .movedPending
+    ∧ (demoPoly.addConstraints demoHeap demoArg).2.2 = .moved := by decide
+
+/-- `ph.add_recycled_generators(gs)` = `ph.add_generators(gs)` (necessarily closed).  Extra hypothesis: the argument's `index_first_pending` does not exceed its number of rows (part of `Linear_System::OK()`), or the path is not the one that swaps the whole argument into an empty receiver.  Nothing is missing for well-formed arguments; without the hypothesis the statement is false (`recycled_generators_eq_copy_fails`) -/
+theorem recycled_generators_eq_copy_partial (h : Heap) (x : Poly) (gs : LinSys) (frame : List Nat)
+    (hO : Owns h (x.owned ++ gs.owned ++ frame))
+    (hfp : gs.firstPending ≤ gs.numRows ∨ (x.addRecycledGenerators h gs).2.2.2 ≠ .wasEmptySwapped) :
+    (x.addRecycledGenerators h gs).2.1.value (x.addRecycledGenerators h gs).1
+      = (x.addGenerators h gs).2.1.value (x.addGenerators h gs).1
+    ∧ (x.addRecycledGenerators h gs).2.2.2 = (x.addGenerators h gs).2.2 :=
+  by apply C13Proofs.recycled_generators_eq_copy_partial <;> assumption
+/-- the unrestricted statement fails on an ill-formed argument (`index_first_pending = 5` with one row):
+the swapped-in system keeps the bogus index, the copy constructor normalises it -/
+theorem recycled_generators_eq_copy_fails :
+    ∃ (h : Heap) (x : Poly) (gs : LinSys) (frame : List Nat), Owns h (x.owned ++ gs.owned ++ frame) ∧
+      ¬ ((x.addRecycledGenerators h gs).2.1.value (x.addRecycledGenerators h gs).1
+          = (x.addGenerators h gs).2.1.value (x.addGenerators h gs).1
+        ∧ (x.addRecycledGenerators h gs).2.2.2 = (x.addGenerators h gs).2.2) :=
+  C13Proofs.recycled_generators_eq_copy_counterexample
+
+example : (demoPoly.addRecycledGenerators demoHeap demoArg).2.2.2 = .notModelled          -- generators not up to date
+    ∧ (({ demoPoly with status := C_UP + G_UP } : Poly).addRecycledGenerators demoHeap demoArg).2.2.2 = Exit.moved := by decide
+
+/-- **the argument of `add_recycled_constraints` afterwards.**  The documentation promises only that it can be destroyed.  What the code leaves: either nothing was moved (dimension error, no rows, zero-dimensional or empty receiver) and the argument is the SAME object with the same storage, or every row was moved out and the argument is the EMPTY system of space dimension **0** (not the polyhedron's dimension: `Linear_System::clear()` resets `space_dimension_`), of the receiver's topology, flagged sorted, without pending rows, owning no storage — which satisfies `OK()`.  In both cases every cell has exactly one owner (receiver, argument or frame): nothing leaked, nothing shared -/
+theorem recycled_argument_valid (h : Heap) (x : Poly) (cs : LinSys) (frame : List Nat)
+    (hO : Owns h (x.owned ++ cs.owned ++ frame)) :
+    let out := x.addRecycledConstraints h cs
+    Owns out.1 (out.2.1.owned ++ out.2.2.1.owned ++ frame)
+    ∧ FrameEq h out.1 frame
+    ∧ ((out.2.2.2 = .moved ∨ out.2.2.2 = .movedPending) →
+        out.2.2.1.value out.1 = ⟨[], 0, x.nnc, 0, true⟩ ∧ out.2.2.1.owned = []
+        ∧ okV constraintClass (out.2.2.1.value out.1) = true)
+    ∧ (out.2.2.2 ≠ .moved → out.2.2.2 ≠ .movedPending →
+        out.2.2.1 = cs ∧ out.2.2.1.value out.1 = cs.value h) :=
+  by apply C13Proofs.recycled_argument_valid <;> assumption
+example : let out := demoPoly.addRecycledConstraints demoHeap demoArg
+    out.2.2.1 = ⟨⟨[], 3⟩, 0, false, 0, true⟩ ∧ out.2.1.conSys.owned = [0, 1, 4, 5, 6] := by decide
+
+/-- the same for `Linear_System::insert(y, Recycle_Input())`: `y` untouched when it has no rows, else cleared to the empty 0-dimensional system -/
+theorem recycled_argument_valid_linsys (K : RowClass) (h : Heap) (x y : LinSys) (frame : List Nat)
+    (hO : Owns h (x.owned ++ y.owned ++ frame)) :
+    let out := x.insertSys K h y
+    Owns out.1 (out.2.1.owned ++ out.2.2.owned ++ frame) ∧ FrameEq h out.1 frame
+    ∧ (y.hasNoRows = true → out.2.2 = y)
+    ∧ (y.hasNoRows = false → out.2.2.value out.1 = ⟨[], 0, y.nnc, 0, true⟩ ∧ out.2.2.owned = []
+        ∧ okV K (out.2.2.value out.1) = true) :=
+  by apply C13Proofs.recycled_argument_valid_linsys <;> assumption
+/-- `gr.add_recycled_congruences(cgs)` = `gr.add_congruences(cgs)` on the receiver (`Congruence_System::insert(cgs, Recycle_Input())`, `Congruence_System.cc:147`) -/
+theorem recycled_congruences_eq_copy (h : Heap) (x : GridC) (cgs : CgSys) (frame : List Nat)
+    (hO : Owns h (x.conSys.owned ++ cgs.owned ++ frame)) :
+    (x.addRecycledCongruences h cgs).2.1.value (x.addRecycledCongruences h cgs).1
+      = (x.addCongruences h cgs).2.1.value (x.addCongruences h cgs).1
+    ∧ (x.addRecycledCongruences h cgs).2.2.2 = (x.addCongruences h cgs).2.2 :=
+  by apply C13Proofs.recycled_congruences_eq_copy <;> assumption
+/-- the argument of `Grid::add_recycled_congruences` afterwards: untouched, or the EMPTY congruence system of space dimension 0 owning no storage -/
+theorem recycled_congruences_argument_valid (h : Heap) (x : GridC) (cgs : CgSys) (frame : List Nat)
+    (hO : Owns h (x.conSys.owned ++ cgs.owned ++ frame)) :
+    let out := x.addRecycledCongruences h cgs
+    Owns out.1 (out.2.1.conSys.owned ++ out.2.2.1.owned ++ frame) ∧ FrameEq h out.1 frame
+    ∧ (out.2.2.2 = .moved → out.2.2.1.value out.1 = ⟨[], 0⟩ ∧ out.2.2.1.owned = [])
+    ∧ (out.2.2.2 ≠ .moved → out.2.2.1 = cgs) :=
+  by apply C13Proofs.recycled_congruences_argument_valid <;> assumption
+example : let x : GridC := ⟨⟨⟨[⟨0, 2, false⟩], 1⟩, 2⟩, C_UP, 2⟩
+    let cgs : CgSys := ⟨⟨[⟨4, 3, false⟩, ⟨5, 0, false⟩], 2⟩, 2⟩
+    (x.addRecycledCongruences demoHeap cgs).2.2.2 = .moved
+    ∧ (x.addRecycledCongruences demoHeap cgs).2.2.1 = ⟨⟨[], 2⟩, 0⟩
+    ∧ (x.addRecycledCongruences demoHeap cgs).2.1.conSys.owned = [0, 4, 5] := by decide
+
+/-- **a sparse system recycled into the dense systems of a polyhedron** (the default situation for user-built systems): every row goes through `set_representation` and gets NEW storage (`Linear_Expression.cc:168`); the converted argument has the same value, owns only fresh cells, and the old cells are deleted — recycling then reuses nothing, but stays value-correct -/
+theorem converted_same_value (h : Heap) (y : LinSys) (frame : List Nat) (hO : Owns h (y.owned ++ frame)) :
+    let out := y.converted h
+    Owns out.1 (out.2.owned ++ frame) ∧ out.2.value out.1 = y.value h
+    ∧ (∀ a ∈ out.2.owned, h.next ≤ a) ∧ FrameEq h out.1 frame :=
+  by apply C13Proofs.converted_same_value <;> assumption
+example : (demoArg.converted demoHeap).2.owned = [7, 8, 9] ∧ (demoArg.converted demoHeap).2.value (demoArg.converted demoHeap).1 = demoArg.value demoHeap := by
+  decide
+
+/-! ## swap -/
+
+/-- **`Polyhedron::m_swap` exchanges the two values completely**: all six members (constraint system, generator system, both saturation matrices, status, space dimension), and with them the ownership of every row; no storage is touched -/
+theorem swap_exchanges_values (h : Heap) (x y : Poly) (ht : x.nnc = y.nnc) :
+    (Poly.mSwap x y).1 = y ∧ (Poly.mSwap x y).2 = x
+    ∧ (Poly.mSwap x y).1.value h = y.value h ∧ (Poly.mSwap x y).2.value h = x.value h
+    ∧ (Poly.mSwap x y).1.owned = y.owned ∧ (Poly.mSwap x y).2.owned = x.owned :=
+  by apply C13Proofs.swap_exchanges_values <;> assumption
+/-- **self-swap is the identity** (`x.m_swap(x)`: six swaps of a member with itself) -/
+theorem self_swap_identity (x : Poly) : (Poly.mSwap x x).1 = x ∧ (Poly.mSwap x x).2 = x :=
+  by apply C13Proofs.self_swap_identity <;> assumption
+/-- `Linear_System::m_swap` exchanges every member -/
+theorem linsys_swap_exchanges (x y : LinSys) : LinSys.mSwap x y = (y, x) :=
+  by apply C13Proofs.linsys_swap_exchanges <;> assumption
+example : (Poly.mSwap demoPoly demoPolyMin).1 = demoPolyMin ∧ (Poly.mSwap demoPoly demoPolyMin).2 = demoPoly := by decide
+
+/-- `Pointset_Powerset::m_swap`: the sequences (handles) are exchanged, no `Determinate` is copied, no reference count changes (the machine state is not an argument of `PS.mSwap`) -/
+theorem powerset_swap_exchanges {P : Type} (σ : Cow.State P) (x y : PS.Pset) :
+    PS.mSwap x y = (y, x) ∧ PS.value σ (PS.mSwap x y).1 = PS.value σ y ∧ PS.value σ (PS.mSwap x y).2 = PS.value σ x :=
+  by apply C13Proofs.powerset_swap_exchanges <;> assumption
+/-- self-swap of a powerset -/
+theorem powerset_self_swap_identity (x : PS.Pset) : PS.mSwap x x = (x, x) :=
+  by apply C13Proofs.powerset_self_swap_identity <;> assumption
+/-- **`Pointset_Powerset::add_disjunct(ph)` copies into a `Determinate` of its own**: the new list node sees `ph`, its representation has exactly one holder (the temporary is gone), no other handle of the machine changes its value, the sequence is the old one followed by the new disjunct, `reduced` is cleared, and the machine invariant (exact counters, no use after free) is kept -/
+theorem add_disjunct_copies {P : Type} (σ : Cow.State P) (x : PS.Pset) (ph : P) (tmp node : Nat)
+    (hI : Cow.Inv σ) (ht : tmp < σ.handles.length) (hn : node < σ.handles.length) (hne : tmp ≠ node)
+    (htd : σ.prep tmp = none) (hnd : σ.prep node = none) (hx : node ∉ x.seq ∧ tmp ∉ x.seq) :
+    let out := PS.addDisjunct σ x ph tmp node
+    Cow.Inv out.1
+    ∧ Cow.value out.1 node = some ph
+    ∧ Cow.value out.1 tmp = none
+    ∧ (∀ k, k ≠ node → k ≠ tmp → Cow.value out.1 k = Cow.value σ k)
+    ∧ (∃ a, out.1.prep node = some a ∧ Cow.holders out.1 a = 1)
+    ∧ PS.value out.1 out.2 = PS.value σ x ++ [some ph]
+    ∧ out.2.reduced = false :=
+  by apply C13Proofs.add_disjunct_copies <;> assumption
+example : let σ := Cow.run (Cow.State.init Nat 4) [.construct 0 5, .copyCtor 1 0]
+    let out := PS.addDisjunct σ ⟨[0], true, 1⟩ 7 2 3
+    PS.value out.1 out.2 = [some 5, some 7] ∧ Cow.value out.1 1 = some 5 ∧ out.1.fault = false := by decide
+
+/-! ## aliasing at the data level: `x.op(x)` computes what `x.op(copy of x)` computes -/
+
+/-- `cs.insert(cs)` (the const overload copies its argument before it moves anything) -/
+theorem alias_invariance_insert (K : RowClass) (h : Heap) (x : LinSys) (frame : List Nat)
+    (hO : Owns h (x.owned ++ frame)) :
+    let a := x.insertConst K h .self
+    let c := LinSys.copyWithPending h x
+    let b := x.insertConst K c.1 (.other c.2)
+    a.2.value a.1 = b.2.value b.1 :=
+  by apply C13Proofs.alias_invariance_insert <;> assumption
+/-- `x.add_constraints(cs)` with `cs` a reference to the receiver's own constraint system (`x.add_constraints(x.constraints())`) = recycling an independent copy -/
+theorem alias_invariance_add_own_constraints (h : Heap) (x : Poly) (frame : List Nat)
+    (hO : Owns h (x.owned ++ frame)) :
+    let a := x.addConstraints h x.conSys
+    let c := LinSys.copy h x.conSys
+    let b := x.addRecycledConstraints c.1 c.2
+    a.2.1.value a.1 = b.2.1.value b.1 ∧ a.2.2 = b.2.2.2 :=
+  by apply C13Proofs.alias_invariance_add_own_constraints <;> assumption
+/-- `x.con_sys.merge_rows_assign(x.con_sys)`: the loop runs in lock step (`compare(x[i], x[i]) == 0`), steals every row and never reads a row it has already swapped out; the result is the receiver's own rows, and equals merging with a copy -/
+theorem alias_invariance_merge (K : RowClass) (hK : ∀ v, K.cmp v v = 0) (h : Heap) (x : LinSys) (frame : List Nat)
+    (hO : Owns h (x.owned ++ frame)) :
+    let a := x.mergeRowsAssign K h .self
+    let c := LinSys.copyWithPending h x
+    let b := x.mergeRowsAssign K c.1 (.other c.2)
+    a.2.value a.1 = b.2.value b.1 ∧ a.2.value a.1 = { x.value h with firstPending := x.numRows } :=
+  by apply C13Proofs.alias_invariance_merge <;> assumption
+/-- **`x.intersection_assign(x)` = `x.intersection_assign(copy of x)`**, every path (pending insertion, sorted merge, plain insertion, early exits) -/
+theorem alias_invariance_intersection (h : Heap) (x : Poly) (frame : List Nat)
+    (hO : Owns h (x.owned ++ frame)) :
+    let a := x.intersectionAssign h .self
+    let c := Poly.copy h x
+    let b := x.intersectionAssign c.1 (.other c.2)
+    a.2.1.value a.1 = b.2.1.value b.1 ∧ a.2.2 = b.2.2 :=
+  by apply C13Proofs.alias_invariance_intersection <;> assumption
+/-- **`x.poly_hull_assign(x)` = `x.poly_hull_assign(copy of x)`**, every path -/
+theorem alias_invariance_hull (h : Heap) (x : Poly) (frame : List Nat)
+    (hO : Owns h (x.owned ++ frame)) :
+    let a := x.polyHullAssign h .self
+    let c := Poly.copy h x
+    let b := x.polyHullAssign c.1 (.other c.2)
+    a.2.1.value a.1 = b.2.1.value b.1 ∧ a.2.2 = b.2.2 :=
+  by apply C13Proofs.alias_invariance_hull <;> assumption
+/-- **`x.concatenate_assign(x)` = `x.concatenate_assign(copy of x)`** on the constraint system: the code copies `y.constraints()` BEFORE it widens the receiver's system (`Polyhedron_chdims.cc:219` vs `:239`) -/
+theorem alias_invariance_concatenate (h : Heap) (x : Poly) (frame : List Nat)
+    (hO : Owns h (x.owned ++ frame)) :
+    let a := x.concatenateAssignCons h .self
+    let c := Poly.copy h x
+    let b := x.concatenateAssignCons c.1 (.other c.2)
+    a.2.1.value a.1 = b.2.1.value b.1 ∧ a.2.2 = b.2.2 :=
+  by apply C13Proofs.alias_invariance_concatenate <;> assumption
+example : (demoCon.insertConst constraintClass demoHeap .self).2.value (demoCon.insertConst constraintClass demoHeap .self).1
+    = ⟨[⟨[0, 1, 0], 0, false⟩, ⟨[1, 1, 1], 1, false⟩, ⟨[0, 1, 0], 0, false⟩, ⟨[1, 1, 1], 1, false⟩], 2, false, 4, false⟩ := by decide
+example : (demoPoly.intersectionAssign demoHeap .self).2.2 = .moved
+    ∧ (demoPolyMin.intersectionAssign demoHeap .self).2.2 = .movedPending
+    ∧ (demoPoly.concatenateAssignCons demoHeap .self).2.1.spaceDim = 4 := by decide
+example : ∀ v, constraintClass.cmp v v = 0 := constraintClass_cmp_self
+
+/-! ## independence after assignment, for every operation sequence of the pool machine -/
+
+/-- **ownership invariant over operation sequences**: from a pool in which every cell is owned by exactly one row of exactly one member, every sequence of assignments (also `x = x`), swaps, intersections / hulls (also `x.op(x)`), `add_constraints` with a reference into another member, in-place writes and scalar updates leads to such a pool again: no cell is ever owned twice, none leaks, no micro-step touches a freed cell -/
+theorem world_inv_run (w : World) (ops : List WOp) (hI : w.Inv) : (w.run ops).Inv :=
+  by apply C13Proofs.world_inv_run <;> assumption
+/-- frame rule of the pool machine: an operation changes no member outside its destinations -/
+theorem world_frame (w : World) (op : WOp) (hI : w.Inv) (k : Nat) (hk : k ∉ op.dst) :
+    (w.step op).value k = w.value k :=
+  by apply C13Proofs.world_frame <;> assumption
+/-- **after `x_i = x_j` the two are independent**: no later operation that does not have `x_j` as a destination — in-place writes to any row of `x_i`, insertions, intersections, hulls, swaps with third members, whatever the earlier history — changes the value of `x_j`; and the assignment itself did not change `x_j` (the symmetric statement is the same theorem with the roles exchanged: `x_i` is not a destination of operations on `x_j`) -/
+theorem assign_then_independent (w : World) (pre post : List WOp) (i j : Nat) (hI : w.Inv) (hij : i ≠ j)
+    (hpost : ∀ op ∈ post, j ∉ op.dst) :
+    (w.run (pre ++ [.assign i j] ++ post)).value j = (w.run (pre ++ [.assign i j])).value j
+    ∧ (w.run (pre ++ [.assign i j])).value j = (w.run pre).value j :=
+  by apply C13Proofs.assign_then_independent <;> assumption
+/-- `x_i = x_j` gives `x_i` the value of `x_j` (all parts up to date; a part that is not up to date is deliberately not copied) -/
+theorem assign_value (w : World) (i j : Nat) (hI : w.Inv) (x y : Poly)
+    (hx : w.objs[i]? = some x) (hy : w.objs[j]? = some y) (hne : y.markedEmpty = false) (hd : y.spaceDim ≠ 0)
+    (hc : testAny y.status C_UP = true) (hg : testAny y.status G_UP = true)
+    (hsc : testAny y.status SAT_C_UP = true) (hsg : testAny y.status SAT_G_UP = true) :
+    (w.step (.assign i j)).value i = w.value j :=
+  by apply C13Proofs.assign_value <;> assumption
+example : (⟨demoHeap, [demoPoly, ⟨LinSys.mk0 false, LinSys.mk0 false, BitMatrix.empty, BitMatrix.empty, 0, 0⟩]⟩ : World).owned = [0, 1, 2, 3] := by
+  decide
 
 end C13
